@@ -95,6 +95,16 @@ def _check_runtime_types(node: ASTNode, type_map: Mapping[Field, FieldTypeInfo])
     return incorrect_fields
 
 
+def _stable_str(val: Any) -> str:
+    """str(val), except that sets are rendered with their elements sorted, because
+    their iteration order depends on insertion order and on the string hash seed."""
+    if isinstance(val, (set, frozenset)):
+        items = sorted(_stable_str(v) if isinstance(v, (set, frozenset)) else repr(v) for v in val)
+        return f"{type(val).__name__}({{{', '.join(items)}}})"
+
+    return str(val)
+
+
 def _encode_digest_value(val: Any) -> str:
     """Encode a property value for the id digests.
 
@@ -102,7 +112,7 @@ def _encode_digest_value(val: Any) -> str:
     so that a value containing the digest's own separators can't be confused with
     the framing of other fields.
     """
-    val_str = str(val).replace("\\", "\\\\").replace(")", "\\)")
+    val_str = _stable_str(val).replace("\\", "\\\\").replace(")", "\\)")
     return f"{type(val)}({val_str})"
 
 
